@@ -200,8 +200,9 @@ def messageText (kind : Str) (msg : Str) (ln : Nat) : Str :=
   kind ++ ": ".toList ++ msg ++ " in line: ".toList ++ natToDec ln
 
 /-- the `.include` handler handed to `Directive::parse`: path as written, include set of the
-    including file, state → state after the file -/
-abbrev IncludeFn := Str → List Str → PState → Out PState
+    including file, state → state after the file and the includer's include set after it (the
+    directories added by `.includepath` inside the file stay in force) -/
+abbrev IncludeFn := Str → List Str → PState → Out (PState × List Str)
 
 /-- `Directive::parse` : new state, new include set of this file, what to skip next -/
 def directiveParse (inc : IncludeFn) (cur : Str) (incs : List Str)
@@ -281,7 +282,7 @@ def directiveParse (inc : IncludeFn) (cur : Str) (incs : List Str)
       match ops, first with
       | .opList _, some (.s path) =>
         match inc path incs st with
-        | .ok st' => .ok (st', incs, .newLine)
+        | .ok (st', incs') => .ok (st', incs', .newLine)
         | .error e => .error e
         | .panic s => .panic s
         | .oof => .oof
@@ -393,26 +394,40 @@ def parseIterWith (inc : IncludeFn) (cur : Str) :
 
 def numbered (ls : List Str) : List (Nat × Str) := List.zip (List.range ls.length) ls
 
+/-- the path `parse_file_internal` opens: as written when that exists, else the first
+    `dir/path` that exists over the include set in its order, else as written -/
+def resolvePath (fs : Fs) (path : Str) (incs : List Str) : Str :=
+  if fs.exists path then path
+  else
+    match incs.find? (fun par => fs.exists (pathPush par path)) with
+    | some par => pathPush par path
+    | none => path
+
+/-- what `parse_file_internal` hands back to the including file: every directory of the file's
+    final include set except the file's own directory -/
+def writeBack (own : Option Str) (incsFile incs : List Str) : List Str :=
+  incsFile.foldl (fun acc p => if own.any (pathEq p) then acc else pathsInsert p acc) incs
+
 /-- `parse_file_internal` for the path `path` as written, with the includer's include set; the
     first argument bounds the include nesting (the Rust recursion has no bound of its own) -/
 def parseFileAt (fs : Fs) : Nat → IncludeFn
   | 0, _, _, _ => .oof
   | d + 1, path, incs, st =>
-    let resolved : Str :=
-      if fs.exists path then path
-      else
-        match incs.find? (fun par => fs.exists (pathPush par path)) with
-        | some par => pathPush par path
-        | none => path
+    let resolved : Str := resolvePath fs path incs
     match fs.read resolved with
     | none => .error ⟨none, "cannot-read-file:" ++ String.ofList resolved⟩
     | some src =>
-      let incs' := match pathParent resolved with
-        | some par => pathsInsert par incs
+      let par := pathParent resolved
+      -- the file's own directory, when it is not in the set yet
+      let own : Option Str := match par with
+        | some p => if incs.any (pathEq p) then none else some p
+        | none => none
+      let incs' := match par with
+        | some p => pathsInsert p incs
         | none => incs
       let ls := lines src
       match parseIterWith (parseFileAt fs d) resolved (ls.length + 1) incs' st .newLine (numbered ls) with
-      | .ok (st', _) => .ok st'
+      | .ok (st', incsFile) => .ok (st', writeBack own incsFile incs)
       | .error e => .error e
       | .panic s => .panic s
       | .oof => .oof
@@ -448,6 +463,10 @@ def parseStr (fs : Fs) (src : Str) (ctx : Ctx) : Out (PState) :=
 
 /-- `parse_file` -/
 def parseFile (fs : Fs) (path : Str) (incs : List Str) (ctx : Ctx) : Out PState :=
-  parseFileAt fs (includeDepth + 1) path (incs.foldl (fun acc p => pathsInsert p acc) []) (PState.init ctx)
+  match parseFileAt fs (includeDepth + 1) path (incs.foldl (fun acc p => pathsInsert p acc) []) (PState.init ctx) with
+  | .ok (st, _) => .ok st
+  | .error e => .error e
+  | .panic s => .panic s
+  | .oof => .oof
 
 end Avra.Model
